@@ -20,6 +20,9 @@ def run(res):
                           workers_note=", W in 1..3 workers; bounded buffer (signal), gate (broadcast), turnstile (broadcast) and token programs (signal issued outside the mutex) with <= 4 waiters")
     if not res.violations:
         sched_common.free_stress(res, "C05", "cond", [(4, 6, 3000, 2), (2, 4, 4000, 1), (8, 8, 1500, 0), (3, 5, 3000, 3), (1, 4, 2000, 1)])
+    if not res.violations:
+        # the "lock; change the predicate; unlock; notify" idiom: signals and broadcasts overlap each other and the waits
+        sched_common.free_stress(res, "C05", "cond2", [(12, 12, 20000, 0), (8, 8, 20000, 2), (4, 6, 20000, 1), (2, 4, 20000, 1), (1, 4, 5000, 1)])
     if res.breaks and not res.violations:
         sched_common.search_more(res, "C05", "cond_prog", variants(res.seed + 1), 400)
     res.assumptions += [
